@@ -122,6 +122,7 @@ func Reset(c Config) {
 	RunSeq.Store(runSeq)
 	runnable = nil
 	blocked = map[interface{}][]*G{}
+	held = map[interface{}]string{}
 	sleepers = nil
 	forever = nil
 	nextID = 0
@@ -617,6 +618,28 @@ func Lock(m locker, site string) {
 		}
 		RaceOn()
 	}
+	RaceOff()
+	mu.Lock()
+	held[m] = site
+	mu.Unlock()
+	RaceOn()
+}
+
+// held: the mutexes currently locked through Lock, with the site that locked them.
+var held = map[interface{}]string{}
+
+// HeldLocks lists the sites whose mutex is still locked (sorted).  At a quiescent point with
+// every request answered nobody is inside a critical section, so anything listed here was locked
+// on a path that forgot to unlock it.
+func HeldLocks() []string {
+	mu.Lock()
+	defer mu.Unlock()
+	var out []string
+	for _, s := range held {
+		out = append(out, s)
+	}
+	sort.Strings(out)
+	return out
 }
 
 // Unlock releases the real mutex and makes its waiters runnable.
@@ -629,6 +652,7 @@ func Unlock(m locker) {
 	}
 	RaceOff()
 	mu.Lock()
+	delete(held, m)
 	ws := blocked[m]
 	delete(blocked, m)
 	for _, w := range ws {
